@@ -18,10 +18,15 @@ def run(ctx: Ctx):
                 "all option values, tiny budgets) plus structured UNSAT families (pigeonhole 3-5, contradictory parity chains, the "
                 "18-variable cumulative encoding) and a budget sweep (pigeonhole 6..10 pigeons, random 3-SAT with 30-60 variables, parity chains, each under "
                 "~25 small max_conflicts / max_restarts values: every call must return in time); non-trivial = conflict analysis produced >=1 learned clause (each one RUP-checked in "
-                "coqc); distinct = canonical JSON of (clauses, assumptions, options)")
+                "coqc); distinct = canonical JSON of (clauses, assumptions, options); round 2: input container forms, aliased clause "
+                "objects, option corners, call sequences, and a few heavy by-construction instances (blocks, guarded pigeonhole, sparse/large indices)")
     ctx.proof_step(["C01"], props_file="Props/C02.v")
     ctx.notes += SC.NOTES + SC.NOTES_C02
+    from harness.props import sat_shapes as SH  # round-2 hardening (HARDENING.md): heavy by-construction instances, call sequences
+    heavy = SH.start_heavy(ctx, "C02")  # solved in a forked pool while the small-case engine runs
     SC.run_engine(ctx, "C02")
+    SH.finish_heavy(ctx, "C02", heavy)
+    SH.run_sequences(ctx, "C02")
     SC.run_sweep(ctx)  # budget sweep: hard instances x several small max_conflicts / max_restarts values, every call must return
 
 
